@@ -744,7 +744,9 @@ func (m *Message) RemoveReceiver(receiverEntityID EntityID) error {
 func (m *Message) Receivers() []*NodeInterface {
 	recSlice := m.receivers.getValues()
 	slices.SortFunc(recSlice, func(a, b *NodeInterface) int {
-		return strings.Compare(a.node.name, b.node.name)
+		return orCompare(strings.Compare(a.node.name, b.node.name), func() int {
+			return compareEntityIDs(a.node.entityID, b.node.entityID)
+		})
 	})
 	return recSlice
 }
